@@ -263,6 +263,25 @@ func storeCase(t *testing.T, run *core.Run, p *pool, name string, rng *rand.Rand
 			hist = append(hist, opRec{Op: "pending-work-copy-root-then-reset"})
 		}
 		n := batchSizes[rng.Intn(len(batchSizes))]
+		if rng.Intn(8) == 0 || (b == 0 && rng.Intn(4) == 0) {
+			n = 0 // an empty block (as the very first commit: the commitment of the empty set)
+			run.Count("empty_batches_committed", 1)
+		}
+		// an older handle: a copy taken before this block commits and asked for its root afterwards, with nothing pending on
+		// it, still holds the state it was taken from
+		var stale lib.StoreI
+		var staleModel map[string][]byte
+		if rng.Intn(4) == 0 {
+			c, err := st.Copy()
+			if err != nil {
+				t.Fatalf("copy: %v", err)
+			}
+			stale, staleModel = c, map[string][]byte{}
+			for k, v := range model {
+				staleModel[k] = v
+			}
+			hist = append(hist, opRec{Op: "copy-held-across-commit"})
+		}
 		hist = append(hist, opRec{Op: "batch", N: n})
 		if rng.Intn(3) == 0 {
 			// through a nested transaction that is flushed, plus one that is discarded
@@ -293,6 +312,18 @@ func storeCase(t *testing.T, run *core.Run, p *pool, name string, rng *rand.Rand
 			run.Violation(fmt.Sprintf("root-mismatch path=store-commit batch>=16:%v rolled-back-before:%v", n >= 16, rolledBack), name,
 				map[string]any{"history": hist, "got": core.Hex(root), "want": core.Hex(want), "set_size": len(model)})
 			return
+		}
+		if stale != nil {
+			r, err := stale.Root()
+			if err != nil {
+				t.Fatalf("root(stale copy): %v", err)
+			}
+			if want := refs.CanonicalRoot(staleModel, 160); !bytes.Equal(r, want) {
+				run.Violation("root-mismatch path=copy-held-across-commit", name, map[string]any{"history": hist, "got": core.Hex(r), "want": core.Hex(want),
+					"set_size": len(staleModel), "root_of_the_newer_commit": core.Hex(root)})
+			}
+			run.Count("roots_of_copies_held_across_a_commit", 1)
+			stale.Discard()
 		}
 		snap := make(map[string][]byte, len(model))
 		for k, v := range model {
